@@ -58,7 +58,6 @@ let verdict case impl =
     let (m_ord, m_left) = rs_ordered dcf rackf g pre t s in
     let s0 = replicas_for dcf rackf g [] t strat dc in
     let m_np = rs_iter dcf rackf g [] t s0 in
-    let dup = not (tokens_distinct g) in
     (match impl with
      | [len; iter; nth; choose; cf; ordered; ep; np] ->
        let o_len = int_of_string ("0x" ^ len) and o_iter = ids_of iter and o_np = ids_of np in
@@ -93,23 +92,18 @@ let verdict case impl =
          && (match o_ord with Some l -> same_nodes l | None -> false)
          && (match o_ep with Some l -> l = o_iter | None -> true) in
        let pre_ok () = same_set o_np o_iter || (o_np = [] && o_iter = []) in
-       (* placement against the specification: only where the specification is defined
-          (distinct tokens in the ring that is walked) *)
-       let spec_defined () = match strat with
-         | NTS _ -> dc_tokens_distinct dcf g
-         | _ -> tokens_distinct g in
+       (* placement against the specification (definite on every ring: C04_replicas_any_ring) *)
+       let spec_defined () = true in
        let spec = lazy (spec_replicas dcf rackf g t strat dc) in
        let spec_ok () = (not (spec_defined ())) || o_iter = Lazy.force spec
                      || (match strat, dc with NTS _, None -> same_set o_iter (Lazy.force spec) | _ -> false) in
        let fails_of () = (if views_ok () then [] else ["views"]) @ (if pre_ok () then [] else ["precomputed"])
                    @ (if spec_ok () then [] else ["placement"]) in
-       (* model agrees and all tokens distinct: the theorems of Props/C04.v give the property *)
-       if agree && not dup then "ok" else
+       (* model agrees: the theorems of Props/C04.v give the property (repeated tokens included) *)
+       if agree then "ok" else
        let fails = fails_of () in
        if agree then begin
          if fails = [] then "ok"
-         else if dup && not (List.mem "placement" fails) then
-           "viol class=dup-token-start " ^ String.concat "," fails
          else "viol model-agrees " ^ String.concat "," fails
        end else begin
          let detail = Printf.sprintf "model: len=%x iter=%s nth=%s choose=%s ordered=%s np=%s spec=%s"
@@ -117,7 +111,6 @@ let verdict case impl =
              (String.concat "," (List.map str_opt m_choose))
              (if m_left = [] then str_ids m_ord else "panic") (str_ids m_np) (str_ids (Lazy.force spec)) in
          if fails = [] then "diff " ^ detail
-         else if dup && not (List.mem "placement" fails) then "viol class=dup-token-start " ^ String.concat "," fails ^ " " ^ detail
          else "viol " ^ String.concat "," fails ^ " " ^ detail
        end
      | ["panic"] -> "viol panic"
